@@ -2,6 +2,8 @@ import DimodProofs.GenProofs
 import DimodProofs.MultComplete
 import DimodProofs.RandomGen
 import DimodProofs.GenProofs2
+import DimodProofs.GenProofs3
+import DimodModel.GenTables
 
 /-! # C17 — problem generators encode exactly the relation they document
 
@@ -651,5 +653,649 @@ example : (quadraticAssignment [[0, 1], [2, 0]] [[0, 3], [5, 0]]).map (fun q => 
 example : (bpsp [.str "a", .str "b", .str "a", .str "b"]).map List.length = some 3 := by decide +kernel
 example : bpsp [.str "a", .str "a", .str "a", .str "b"] = none := by decide +kernel
 example : (magicSquare 2 2).map (fun q => q.cons.length) = some 7 := by decide +kernel
+
+/-! ## round 7: anti-crossing, frustrated loops, chimera anticluster, MIMO, one-bit multiplier -/
+
+theorem anti_crossing_clique_refuses_iff (n : Nat) : acClique n = none ↔ (n % 2 ≠ 0 ∨ n < 6) := by
+  unfold acClique; split <;> simp_all
+
+/-- **documented biases**: the calls are exactly: `−1` on every pair of the clique `[0, N)`, `−1` on `v ~ v+N`, `+1` on every
+    clique variable, `−1` on every attached variable (`N = num_variables / 2`); variable 1 is then reset to 0 -/
+theorem anti_crossing_clique_calls (hf : Nat) (t : PTerm Label) :
+    t ∈ acCliqueAdds hf ↔
+      ((∃ n m, n < m ∧ m < hf ∧ t = PTerm.quad (iv n) (iv m) (-1)) ∨ (∃ n, n < hf ∧ t = PTerm.quad (iv n) (iv (n + hf)) (-1))
+       ∨ (∃ n, n < hf ∧ t = PTerm.lin (iv n) 1) ∨ (∃ n, n < hf ∧ t = PTerm.lin (iv (n + hf)) (-1))) := by
+  unfold acCliqueAdds acCliqueRow
+  simp only [List.mem_flatMap, List.mem_range, List.mem_append, List.mem_map, List.mem_cons, List.not_mem_nil, or_false]
+  constructor
+  · rintro ⟨n, hn, ⟨k, hk, rfl⟩ | rfl | rfl | rfl⟩
+    · exact Or.inl ⟨n, n + 1 + k, by omega, by omega, rfl⟩
+    · exact Or.inr (Or.inl ⟨n, hn, rfl⟩)
+    · exact Or.inr (Or.inr (Or.inl ⟨n, hn, rfl⟩))
+    · exact Or.inr (Or.inr (Or.inr ⟨n, hn, rfl⟩))
+  · rintro (⟨n, m, h1, h2, rfl⟩ | ⟨n, hn, rfl⟩ | ⟨n, hn, rfl⟩ | ⟨n, hn, rfl⟩)
+    · have e : n + 1 + (m - (n + 1)) = m := by omega
+      exact ⟨n, (by omega), Or.inl ⟨m - (n + 1), (by omega), (by rw [e])⟩⟩
+    · exact ⟨n, hn, Or.inr (Or.inl rfl)⟩
+    · exact ⟨n, hn, Or.inr (Or.inr (Or.inl rfl))⟩
+    · exact ⟨n, hn, Or.inr (Or.inr (Or.inr rfl))⟩
+
+/-- the returned model: the sum of the calls, minus the bias `+1` that `set_linear(1, 0)` removes from variable 1 -/
+theorem anti_crossing_clique_energy (n : Nat) (b : Bq Label) (h : acClique n = some b) (x : Label → Rat) (hx : ∀ v, x v * x v = 1) :
+    b.energy x = evalBag x (acCliqueAdds (n / 2)) - x (iv 1) := by
+  unfold acClique at h
+  split at h
+  · simp at h
+  · rename_i hn
+    simp only [Option.some.injEq] at h; subst h
+    have hhf : 2 ≤ n / 2 := by omega
+    rw [energy_setLinear, apply_energy _ x (by simpa [Bq.empty, Dom] using hx), lookup_apply _ rfl]
+    unfold acCliqueAdds
+    rw [linCoef_acRows _ hhf, count_one_range]
+    simp only [hhf, if_true, Bq.empty, Bq.energy, Bq.linSum, Bq.quadSum, Bq.lookupKey]
+    grind
+
+/-- **"The ground state of this problem is therefore +1 for all variables"**: no spin state has a lower energy -/
+theorem anti_crossing_clique_ground_state (n : Nat) (b : Bq Label) (h : acClique n = some b) (x : Label → Rat)
+    (hx : ∀ v, x v = 1 ∨ x v = -1) : b.energy (fun _ => 1) ≤ b.energy x := by
+  rw [anti_crossing_clique_energy n b h x (fun v => pm_sq _ (hx v)),
+      anti_crossing_clique_energy n b h (fun _ => 1) (fun _ => by grind)]
+  have h1 := acCliqueAdds_bound x hx (n / 2) (List.range (n / 2))
+  have h2 := pm_le _ (hx (iv 1))
+  unfold acCliqueAdds; grind
+
+theorem anti_crossing_loops_refuses_iff (n : Nat) : acLoops n = none ↔ (n % 4 ≠ 0 ∨ n < 8) := by
+  unfold acLoops; split <;> simp_all
+
+/-- **every loop is frustrated** (both `plant_solution` branches, as functions of the recorded cycle and draw): at every spin
+    state the loop contributes at least `−(L − 2)`, and exactly that at the all-(+1) state -/
+theorem frustrated_loop_each_loop (x : Label → Rat) (hx : ∀ v, x v = 1 ∨ x v = -1) (c : List Label) :
+    (∀ idx, idx < c.length → 2 - (c.length : Rat) ≤ evalBag x (flPlanted c idx)
+        ∧ evalBag (fun _ => (1 : Rat)) (flPlanted c idx) = 2 - (c.length : Rat))
+    ∧ (0 < c.length → 2 - (c.length : Rat) ≤ evalBag x (flUnplanted c)
+        ∧ evalBag (fun _ => (1 : Rat)) (flUnplanted c) = 2 - (c.length : Rat)) :=
+  ⟨fun idx h => flPlanted_bound x hx c idx h, fun h => flUnplanted_bound x hx c h⟩
+
+/-- **planted solution**: for any graph and any recorded good cycles (anti-ferromagnetic position inside the loop), the
+    all-(+1) state has energy `−Σ (L − 2)` and no spin state is below it -/
+theorem frustrated_loop_planted_ground_state (nodes : List Label) (edges : List (Label × Label))
+    (cycles : List (List Label × Option Nat)) (h : LoopsOK cycles) (x : Label → Rat) (hx : ∀ v, x v = 1 ∨ x v = -1) :
+    evalBag (fun _ => (1 : Rat)) (frustratedLoop nodes edges cycles) = - loopBound cycles
+    ∧ evalBag (fun _ => (1 : Rat)) (frustratedLoop nodes edges cycles) ≤ evalBag x (frustratedLoop nodes edges cycles) := by
+  unfold frustratedLoop
+  simp only [evalBag_append, evalBag_zeros, evalBag_zeroQuads]
+  have hb := loops_bound x hx cycles h
+  constructor <;> grind
+
+/-- the deprecated `planted_solution` gauge: the gauged model at `x` is the ungauged one at `p·x`; so `p` itself is a ground
+    state of the gauged model -/
+theorem frustrated_loop_gauge (nodes : List Label) (edges : List (Label × Label)) (cycles : List (List Label × Option Nat))
+    (h : LoopsOK cycles) (p x : Label → Rat) (hp : ∀ v, p v = 1 ∨ p v = -1) (hx : ∀ v, x v = 1 ∨ x v = -1) :
+    evalBag x ((frustratedLoop nodes edges cycles).map (gaugeTerm p)) = evalBag (fun v => p v * x v) (frustratedLoop nodes edges cycles)
+    ∧ evalBag p ((frustratedLoop nodes edges cycles).map (gaugeTerm p)) ≤ evalBag x ((frustratedLoop nodes edges cycles).map (gaugeTerm p)) := by
+  have hlin : ∀ t ∈ frustratedLoop nodes edges cycles, ∀ v c, t = PTerm.lin v c → c = 0 := by
+    intro t ht v c he
+    subst he
+    unfold frustratedLoop at ht
+    simp only [List.mem_append, List.mem_map, List.mem_flatMap] at ht
+    rcases ht with (⟨w, _, hw⟩ | ⟨e, _, he⟩) | ⟨cy, _, hc⟩
+    · injection hw with _ h2; exact h2.symm
+    · cases he
+    · exfalso
+      have hwalk : ∀ (sg : Nat → Rat) (r : List Label) (u : Label) (i : Nat), PTerm.lin v c ∉ walkBag sg u r i := by
+        intro sg r; induction r with
+        | nil => intro u i; simp [walkBag]
+        | cons a r ih => intro u i; simp only [walkBag, List.mem_cons, not_or]; exact ⟨(by intro h; cases h), ih a (i + 1)⟩
+      rcases cy with ⟨cl, _ | idx⟩ <;> cases cl <;> simp only [flPlanted, flUnplanted, List.mem_cons, List.mem_append, List.not_mem_nil] at hc
+      · rcases hc with hc | hc | hc
+        · exact hwalk _ _ _ _ hc
+        · cases hc
+        · exact hc
+      · rcases hc with hc | hc
+        · cases hc
+        · exact hwalk _ _ _ _ hc
+  have hg := gauge_eval p
+  constructor
+  · exact hg x _ hlin
+  · rw [hg x _ hlin, hg p _ hlin]
+    have h1 := frustrated_loop_planted_ground_state nodes edges cycles h (fun v => p v * x v) (fun v => pm_mul _ _ (hp v) (hx v))
+    have : (fun v => p v * p v) = (fun _ => (1 : Rat)) := by funext v; exact pm_sq _ (hp v)
+    rw [this]; exact h1.2
+
+/-- **anticluster structure**: all linear biases are 0, every coupler inside a tile is a draw `±1`, every coupler between
+    tiles is `±multiplier` (draw `i` goes to edge `i` of the iterators) -/
+theorem chimera_anticluster_couplers (m n t : Nat) (mult : Rat) (draws : List Nat) (term : PTerm Label)
+    (h : term ∈ chimeraFull m n t mult draws) :
+    (∃ v, term = PTerm.lin v 0)
+    ∨ (∃ u v c, term = PTerm.quad u v c ∧ (c = 1 ∨ c = -1))
+    ∨ (∃ u v c, term = PTerm.quad u v c ∧ (c = mult ∨ c = -mult)) := by
+  unfold chimeraFull at h
+  simp only [List.mem_append, List.mem_map] at h
+  rcases h with (⟨v, _, rfl⟩ | ⟨p, _, rfl⟩) | ⟨p, _, rfl⟩
+  · exact Or.inl ⟨_, rfl⟩
+  · exact Or.inr (Or.inl ⟨_, _, _, rfl, pm_draw _ _⟩)
+  · refine Or.inr (Or.inr ⟨_, _, _, rfl, ?_⟩)
+    rcases pm_draw draws ((if m ≠ 0 ∧ n ≠ 0 ∧ t ≠ 0 then chimeraTileEdges m n t else []).length + p.1) with h | h <;> rw [h] <;> grind
+
+/-- without `subgraph` nothing is refused; with one, exactly the nodes / edges outside the lattice are -/
+theorem chimera_anticluster_total (m n t : Nat) (mult : Rat) (draws : List Nat) :
+    chimeraAnticluster m n t mult none draws = some (chimeraFull m n t mult draws) := rfl
+
+theorem mimo_refuses_iff (nt : Nat) (y : List Rat) (F : List (List Rat)) :
+    mimoBpsk nt y F = none ↔ (F.length ≠ y.length ∨ ∃ row ∈ F, row.length ≠ nt) := by
+  unfold mimoBpsk; split <;> simp_all
+
+/-- **`mimo('BPSK', y, F)`, real channel: the energy is `‖y − F·x‖²`** — at every `x` (for a spin sample this is the energy of
+    the returned SPIN model: the diagonal of `FᵀF` goes to the offset), all sizes -/
+theorem mimo_bpsk_energy (nt : Nat) (y : List Rat) (F : List (List Rat)) (bag : List (PTerm Label)) (h : mimoBpsk nt y F = some bag)
+    (x : Label → Rat) : evalBag x bag = residual x nt y F := by
+  unfold mimoBpsk at h
+  split at h
+  · simp at h
+  · rename_i hs
+    simp only [Option.some.injEq] at h; subst h
+    have hlen : F.length = y.length := by
+      by_cases hl : F.length = y.length
+      · exact hl
+      · exact absurd (Or.inl hl) hs
+    rw [← mimoVal_residual x nt y F hlen]
+    simp only [evalBag_append, evalBag_rangeMap, evalBag_rangeFlatMap, denseRow_eval, evalBag, PTerm.eval, mimoVal]
+    grind
+
+theorem residual_nonneg (x : Label → Rat) (nt : Nat) : ∀ (y : List Rat) (F : List (List Rat)), 0 ≤ residual x nt y F := by
+  intro y F
+  induction F generalizing y with
+  | nil => cases y <;> simp [residual]
+  | cons row F ih =>
+    cases y with
+    | nil => simp [residual]
+    | cons y0 y =>
+      simp only [residual]
+      have h1 := ih y
+      have h2 : ∀ a : Rat, 0 ≤ a * a := fun a => by
+        rcases (Rat.le_total : (0 : Rat) ≤ a ∨ a ≤ 0) with h | h
+        · exact Rat.mul_nonneg h h
+        · have : 0 ≤ -a := by grind
+          have := Rat.mul_nonneg this this
+          grind
+      have := h2 (y0 - sumN nt (fun i => row.getD i 0 * x (iv i)))
+      grind
+
+/-- the `('binary', 'real')` channel with the recorded draws: the model is the one of `(y, F) = (F·v, F)`: never negative -/
+theorem mimo_binary_channel_energy (nr nt : Nat) (draws : List Nat) (bag : List (PTerm Label)) (h : mimoBinary nr nt draws = some bag)
+    (x : Label → Rat) :
+    evalBag x bag = residual x nt (matVec (binaryChannel nr nt draws) (bpskSymbols nt (draws.drop (nr * nt)))) (binaryChannel nr nt draws)
+    ∧ 0 ≤ evalBag x bag := by
+  have := mimo_bpsk_energy nt _ _ bag h x
+  exact ⟨this, by rw [this]; exact residual_nonneg x nt _ _⟩
+
+/-- **one-bit multiplier** (as repaired): with `n = 1` or `m = 1` there are no internal wires; the energy at a 0/1 sample is 0
+    iff every product bit below the top is the AND of its operand bits and the top product bit is 0 (i.e. `p = a·b`), and at
+    least 1 otherwise -/
+theorem multiplication_circuit_one_bit (n mArg : Nat) (bag : List (PTerm Label)) (h : mulCircuitBag n mArg = some bag)
+    (hone : n = 1 ∨ (if mArg = 0 then n else mArg) = 1) (x : Label → Rat) (hx : ∀ v, x v ∈ [(0 : Rat), 1]) :
+    (evalBag x bag = 0 ↔
+        ((∀ g ∈ mcOneBitGates n (if mArg = 0 then n else mArg), g.1.rel (g.2.map x) = true)
+          ∧ x (strLabel s!"p{n + (if mArg = 0 then n else mArg) - 1}") = 0))
+    ∧ (evalBag x bag ≠ 0 → 1 ≤ evalBag x bag) := by
+  unfold mulCircuitBag at h
+  split at h
+  · simp at h
+  · simp only [hone, if_true] at h
+    simp only [Option.some.injEq] at h; subst h
+    have hl : ∀ g ∈ mcOneBitGates n (if mArg = 0 then n else mArg), g.2.length = g.1.table.n ∧ g.1.naux = 0 := by
+      intro g hg
+      unfold mcOneBitGates at hg
+      simp only [List.mem_flatMap, List.mem_map, List.mem_range] at hg
+      obtain ⟨i, _, j, _, rfl⟩ := hg
+      exact ⟨rfl, rfl⟩
+    obtain ⟨h1, h2⟩ := gates_sum_zero_iff_all_satisfied _ hl x hx
+    have h0 : 0 ≤ evalBag x (circuitBag (mcOneBitGates n (if mArg = 0 then n else mArg))) := by
+      by_cases hz : evalBag x (circuitBag (mcOneBitGates n (if mArg = 0 then n else mArg))) = 0
+      · rw [hz]; exact Rat.le_refl
+      · have := h2 hz; grind
+    have hp := hx (strLabel s!"p{n + (if mArg = 0 then n else mArg) - 1}")
+    simp only [List.mem_cons, List.not_mem_nil, or_false] at hp
+    simp only [evalBag_append, evalBag, PTerm.eval]
+    constructor
+    · constructor
+      · intro he
+        rcases hp with hp | hp
+        · rw [hp] at he ⊢; exact ⟨h1.1 (by grind), rfl⟩
+        · rw [hp] at he; exfalso; grind
+      · rintro ⟨hg, hp0⟩
+        rw [hp0, h1.2 hg]; grind
+    · intro hne
+      by_cases hz : evalBag x (circuitBag (mcOneBitGates n (if mArg = 0 then n else mArg))) = 0
+      · rcases hp with hp | hp
+        · rw [hp, hz] at hne; exfalso; grind
+        · rw [hp, hz]; grind
+      · have := h2 hz
+        rcases hp with hp | hp <;> rw [hp] <;> grind
+
+/-- with two or more bits per argument `mulCircuitBag` is the adder circuit of `mulCircuit` -/
+theorem multiplication_circuit_bag_eq (n m : Nat) (hn : 2 ≤ n) (hm : 2 ≤ m) :
+    mulCircuitBag n m = (mulCircuit n m).map circuitBag := by
+  unfold mulCircuitBag
+  have h1 : ¬ n < 1 := by omega
+  have h2 : ¬ m = 0 := by omega
+  have h3 : ¬ (n = 1 ∨ m = 1) := by omega
+  simp only [h1, h2, h3, if_false]
+
+example : (acClique 8).isSome = true := by decide +kernel
+example : acLoops 10 = none := by decide +kernel
+example : LoopsOK [([.str "a", .str "b", .str "c"], some 1), ([.int 0, .int 1, .int 2, .int 3], none)] := by
+  intro c hc; simp only [List.mem_cons, List.not_mem_nil, or_false] at hc
+  rcases hc with rfl | rfl
+  · exact ⟨by decide, fun idx h => by cases h; decide⟩
+  · exact ⟨by decide, fun idx h => by cases h⟩
+example : (chimeraAnticluster 1 2 1 3 none [0, 1, 1]).map List.length = some 7 := by decide +kernel
+example : (mimoBpsk 2 [1, 2] [[1, -1], [1, 1]]).isSome = true := by decide +kernel
+example : (mulCircuitBag 3 1).isSome = true := by decide +kernel
+
+/-! ## complete coefficient tables regenerated from the source (`Generated/GenTables.lean`, kernel evaluation)
+
+A change of a constant of `combinations`, of the wiring / naming of `multiplication_circuit` or of an anti-crossing generator
+changes the regenerated tables and breaks these theorems; the harness then searches for a concrete failing input. -/
+
+open Generated.GenTables in
+set_option maxRecDepth 100000 in
+/-- `combinations(n, k, strength, vartype)` for `n ≤ 4`, every `k ≤ n`, strength 1 and 3/2, both vartypes: the model
+    (`triu(qbias) + diag(lbias)`, offset `strength·k²`, `change_vartype`) has exactly the coefficients of the real return value -/
+theorem combinations_matches_generated_tables : combTables.all combRowOK = true := by decide +kernel
+
+open Generated.GenTables in
+set_option maxRecDepth 100000 in
+/-- `multiplication_circuit(n, m)` for the sizes (1,1) … (3,3): wiring, wire names and gate tables give exactly the real model -/
+theorem multiplication_circuit_matches_generated_tables : multTables.all multRowOK = true := by decide +kernel
+
+open Generated.GenTables in
+set_option maxRecDepth 100000 in
+/-- `anti_crossing_clique(6 … 12)`: the model has exactly the coefficients of the real return value -/
+theorem anti_crossing_clique_matches_generated_tables : acCliqueTables.all acCliqueRowOK = true := by decide +kernel
+
+open Generated.GenTables in
+set_option maxRecDepth 100000 in
+/-- `anti_crossing_loops(8 … 20)` (including the single-edge loops of `num_variables = 8`, where `set_quadratic` writes the
+    same interaction twice): the model has exactly the coefficients of the real return value -/
+theorem anti_crossing_loops_matches_generated_tables : acLoopsTables.all acLoopsRowOK = true := by decide +kernel
+
+example : Generated.GenTables.combTables.length = 60 ∧ Generated.GenTables.multTables.length = 8
+    ∧ Generated.GenTables.acCliqueTables.length = 4 ∧ Generated.GenTables.acLoopsTables.length = 4 := by decide +kernel
+
+/-! ## MIMO / CoMP without noise: the transmitted symbols are a ground state of energy 0 -/
+
+theorem bpskSymbols_length (nt : Nat) (d : List Nat) : (bpskSymbols nt d).length = nt := by
+  unfold bpskSymbols; simp
+
+/-- BPSK has the single amplitude 1: with index draws inside `amps` (all 0) every transmitted symbol is `+1` -/
+theorem bpsk_symbols_are_one (nt : Nat) (d : List Nat) (hd : ∀ i, i < nt → d.getD i 0 = 0) (i : Nat) (hi : i < nt) :
+    (bpskSymbols nt d).getD i 0 = 1 := by
+  unfold bpskSymbols
+  rw [List.getD_eq_getElem?_getD, List.getElem?_map, List.getElem?_range hi]
+  simp only [Option.map_some, Option.getD_some, hd i hi, bpskAmps, List.getD_cons_zero]
+
+/-- `mimo('BPSK', num_transmitters, num_receivers, F_distribution=('binary', 'real'), seed)` with `SNRb = inf`, as a function
+    of the recorded draws: at the transmitted symbols the energy is 0, and no sample has a negative energy -/
+theorem mimo_binary_transmitted_ground_state (nr nt : Nat) (draws : List Nat) (bag : List (PTerm Label))
+    (h : mimoBinary nr nt draws = some bag) (x : Label → Rat)
+    (hx : ∀ i, i < nt → x (iv i) = (bpskSymbols nt (draws.drop (nr * nt))).getD i 0) :
+    evalBag x bag = 0 ∧ ∀ x', evalBag x bag ≤ evalBag x' bag := by
+  have h0 : evalBag x bag = 0 := by
+    rw [(mimo_binary_channel_energy nr nt draws bag h x).1]
+    exact residual_transmitted x nt _ (bpskSymbols_length _ _) hx _
+  exact ⟨h0, fun x' => by rw [h0]; exact (mimo_binary_channel_energy nr nt draws bag h x').2⟩
+
+/-- `coordinated_multipoint(lattice, 'BPSK', F_distribution=('binary', 'real'), seed)` for the attenuation matrix `A` of the
+    lattice: energy `‖F·v − F·x‖²` with `F = (±1 draws) ∘ A`; 0 at the transmitted symbols, never negative -/
+theorem coordinated_multipoint_energy (nr nt : Nat) (A : List (List Rat)) (draws : List Nat) (bag : List (PTerm Label))
+    (h : compBinary nr nt A draws = some bag) (x : Label → Rat) :
+    evalBag x bag = residual x nt (matVec (attenuate (binaryChannel nr nt draws) A) (bpskSymbols nt (draws.drop (nr * nt))))
+                      (attenuate (binaryChannel nr nt draws) A)
+    ∧ 0 ≤ evalBag x bag
+    ∧ ((∀ i, i < nt → x (iv i) = (bpskSymbols nt (draws.drop (nr * nt))).getD i 0) → evalBag x bag = 0) := by
+  have := mimo_bpsk_energy nt _ _ bag h x
+  refine ⟨this, by rw [this]; exact residual_nonneg x nt _ _, fun hx => ?_⟩
+  rw [this]; exact residual_transmitted x nt _ (bpskSymbols_length _ _) hx _
+
+example : (compBinary 2 2 [[1, 1], [0, 1]] [0, 1, 1, 0, 0, 0]).isSome = true := by decide +kernel
+
+/-! ## `anti_crossing_loops`: exact coefficients for every `num_variables` (the `set_*` calls overwrite) -/
+
+/-- the interactions written by `set_quadratic`, for `hf = num_variables / 4`: per `n < hf` the rung `n ~ n+hf` (odd `n`), the two
+    loop edges `n ~ (n+1) % hf` and `n+hf ~ (n+1) % hf + hf`, the two pendant edges `n ~ n+2hf`, `n+hf ~ n+3hf` -/
+theorem anti_crossing_loops_pairs (hf : Nat) (p : Label × Label) :
+    p ∈ pairsOf (acLoopsOps hf) ↔ ∃ n, n < hf ∧
+      ((n % 2 = 1 ∧ p = (iv n, iv (n + hf))) ∨ p = (iv n, iv ((n + 1) % hf)) ∨ p = (iv (n + hf), iv ((n + 1) % hf + hf))
+        ∨ p = (iv n, iv (n + 2 * hf)) ∨ p = (iv (n + hf), iv (n + 3 * hf))) := by
+  unfold acLoopsOps
+  simp only [pairsOf_append, pairsOf_flatMap, pairsOf, List.append_nil, List.mem_flatMap, List.mem_range, pairsOf_acLoopsRow,
+    List.mem_append, List.mem_cons, List.not_mem_nil, or_false]
+  constructor
+  · rintro ⟨n, hn, h⟩
+    refine ⟨n, hn, ?_⟩
+    rcases h with h | h
+    · split at h
+      · rename_i hodd; simp only [List.mem_cons, List.not_mem_nil, or_false] at h; exact Or.inl ⟨hodd, h⟩
+      · simp at h
+    · exact Or.inr h
+  · rintro ⟨n, hn, h⟩
+    refine ⟨n, hn, ?_⟩
+    rcases h with ⟨hodd, h⟩ | h
+    · left; simp only [hodd, if_true, List.mem_cons, List.not_mem_nil, or_false]; exact h
+    · exact Or.inr h
+
+/-- **every interaction is ferromagnetic `−1`, exactly on the written pairs** (a pair written twice — the single-edge loops of
+    `num_variables = 8` — is still `−1`: `set_quadratic` overwrites), 0 elsewhere -/
+theorem anti_crossing_loops_quadratic (num : Nat) (b : Bq Label) (h : acLoops num = some b) (u v : Label) :
+    Bq.lookupPair b.quad u v = if (pairsOf (acLoopsOps (num / 4))).any (fun p => samePair p.1 p.2 u v) = true then -1 else 0 := by
+  unfold acLoops at h
+  split at h
+  · simp at h
+  · rename_i hn
+    simp only [Option.some.injEq] at h; subst h
+    have hhf : 2 ≤ num / 4 := by omega
+    have hrows := acLoopsRows_ok (num / 4) hhf (List.range (num / 4)) (fun n hn => List.mem_range.mp hn)
+    have hneg : NegSets (acLoopsOps (num / 4)) := NegSets_append _ _ hrows.1 (by simp [NegSets])
+    rw [lookupPair_runOps _ hneg]
+    rfl
+
+/-- **linear biases**: `+1` on the loop variables `[0, 2hf)` except `0` and `hf` (reset by `set_linear`), `−1` on the pendant
+    variables `[2hf, 4hf)`, nothing else (`hf = num_variables / 4`) -/
+theorem anti_crossing_loops_linear (num : Nat) (b : Bq Label) (h : acLoops num = some b) (k : Nat) :
+    Bq.lookupKey b.lin (iv k)
+      = if k = 0 ∨ k = num / 4 then 0 else if k < 2 * (num / 4) then 1 else if k < 4 * (num / 4) then -1 else 0 := by
+  unfold acLoops at h
+  split at h
+  · simp at h
+  · rename_i hn
+    simp only [Option.some.injEq] at h; subst h
+    have hhf : 2 ≤ num / 4 := by omega
+    have hrows := acLoopsRows_ok (num / 4) hhf (List.range (num / 4)) (fun n hn => List.mem_range.mp hn)
+    unfold acLoopsOps
+    rw [runOps_append]
+    simp only [runOps, SetOp.run, Bq.setLinear, lookupKey_setKey, iv_inj]
+    rw [lookupKey_runOps _ hrows.2, linAdd_rangeFlatMap]
+    have e : (fun i => linAdd (iv k) (acLoopsRow (num / 4) i))
+        = (fun n => ((if n + 0 = k then (1 : Rat) else 0) + (if n + num / 4 = k then 1 else 0))
+            + ((-1) * (if n + 2 * (num / 4) = k then 1 else 0) + (-1) * (if n + 3 * (num / 4) = k then 1 else 0))) := by
+      funext n; rw [linAdd_acLoopsRow]; grind
+    rw [e, sumN_add, sumN_add, sumN_add, sumN_mul, sumN_mul, sumN_indicator, sumN_indicator, sumN_indicator, sumN_indicator]
+    simp only [Bq.empty, Bq.lookupKey]
+    by_cases h0 : k = 0
+    · subst h0
+      have : (0 : Nat) = 0 ∨ 0 = num / 4 := Or.inl rfl
+      simp
+    · by_cases h1 : k = num / 4
+      · subst h1; simp
+      · have hA : ¬ (num / 4 = k) := fun h => h1 h.symm
+        have hB : ¬ (0 = k) := fun h => h0 h.symm
+        simp only [hA, hB, h0, h1, if_false, or_self]
+        by_cases c1 : k < num / 4
+        · have a1 : (0 ≤ k ∧ k < 0 + num / 4) := by omega
+          have a2 : ¬ (num / 4 ≤ k ∧ k < num / 4 + num / 4) := by omega
+          have a3 : ¬ (2 * (num / 4) ≤ k ∧ k < 2 * (num / 4) + num / 4) := by omega
+          have a4 : ¬ (3 * (num / 4) ≤ k ∧ k < 3 * (num / 4) + num / 4) := by omega
+          have a5 : k < 2 * (num / 4) := by omega
+          simp only [a1, a2, a3, a4, a5, if_true, if_false, and_self]; grind
+        · by_cases c2 : k < 2 * (num / 4)
+          · have a1 : ¬ (0 ≤ k ∧ k < 0 + num / 4) := by omega
+            have a2 : (num / 4 ≤ k ∧ k < num / 4 + num / 4) := by omega
+            have a3 : ¬ (2 * (num / 4) ≤ k ∧ k < 2 * (num / 4) + num / 4) := by omega
+            have a4 : ¬ (3 * (num / 4) ≤ k ∧ k < 3 * (num / 4) + num / 4) := by omega
+            simp only [a1, a2, a3, a4, c2, if_true, if_false, and_self]; grind
+          · by_cases c3 : k < 3 * (num / 4)
+            · have a1 : ¬ (0 ≤ k ∧ k < 0 + num / 4) := by omega
+              have a2 : ¬ (num / 4 ≤ k ∧ k < num / 4 + num / 4) := by omega
+              have a3 : (2 * (num / 4) ≤ k ∧ k < 2 * (num / 4) + num / 4) := by omega
+              have a4 : ¬ (3 * (num / 4) ≤ k ∧ k < 3 * (num / 4) + num / 4) := by omega
+              have a5 : k < 4 * (num / 4) := by omega
+              simp only [a1, a2, a3, a4, c2, a5, if_true, if_false, and_self]; grind
+            · by_cases c4 : k < 4 * (num / 4)
+              · have a1 : ¬ (0 ≤ k ∧ k < 0 + num / 4) := by omega
+                have a2 : ¬ (num / 4 ≤ k ∧ k < num / 4 + num / 4) := by omega
+                have a3 : ¬ (2 * (num / 4) ≤ k ∧ k < 2 * (num / 4) + num / 4) := by omega
+                have a4 : (3 * (num / 4) ≤ k ∧ k < 3 * (num / 4) + num / 4) := by omega
+                simp only [a1, a2, a3, a4, c2, c4, if_true, if_false, and_self]; grind
+              · have a1 : ¬ (0 ≤ k ∧ k < 0 + num / 4) := by omega
+                have a2 : ¬ (num / 4 ≤ k ∧ k < num / 4 + num / 4) := by omega
+                have a3 : ¬ (2 * (num / 4) ≤ k ∧ k < 2 * (num / 4) + num / 4) := by omega
+                have a4 : ¬ (3 * (num / 4) ≤ k ∧ k < 3 * (num / 4) + num / 4) := by omega
+                simp only [a1, a2, a3, a4, c2, c4, if_false]; grind
+
+open Generated.GenTables in
+set_option maxRecDepth 100000 in
+/-- the two Chimera edge iterators (`_iter_chimera_tile_edges`, `_iter_chimera_intertile_edges`): the model lists are, element by
+    element and in iteration order, the lists the source produces for 11 lattice shapes up to Chimera(3, 3, 2) and Chimera(2, 2, 4) -/
+theorem chimera_edge_iterators_match_generated_tables : chimeraEdgeTables.all chimeraRowOK = true := by decide +kernel
+
+/-! ## `mimo('QPSK', y, F)` as coded: the quadrature form, and the data-dependent real form (known finding D65) -/
+
+theorem mimo_qpsk_refuses_iff (nt : Nat) (yr yi : List Rat) (Fr Fi : List (List Rat)) :
+    mimoQpsk nt yr yi Fr Fi = none ↔
+      (Fr.length ≠ yr.length ∨ Fi.length ≠ yi.length ∨ yr.length ≠ yi.length
+        ∨ (∃ row ∈ Fr, row.length ≠ nt) ∨ (∃ row ∈ Fi, row.length ≠ nt)) := by
+  unfold mimoQpsk
+  split
+  · rename_i h; simp only [List.any_eq_true, decide_eq_true_eq] at h; simp [h]
+  · rename_i h
+    simp only [List.any_eq_true, decide_eq_true_eq] at h
+    have hs : ¬ (Fr.length ≠ yr.length ∨ Fi.length ≠ yi.length ∨ yr.length ≠ yi.length
+        ∨ (∃ row ∈ Fr, row.length ≠ nt) ∨ (∃ row ∈ Fi, row.length ≠ nt)) := h
+    simp only [hs, iff_false]
+    have hlen1 : (stackF Fr Fi).length = (yr ++ yi).length := by
+      simp only [stackF, List.length_append, List.length_map, List.length_zip]; omega
+    have hrow1 : ∀ row ∈ stackF Fr Fi, row.length = 2 * nt := by
+      intro row hrow
+      simp only [stackF, List.mem_append, List.mem_map] at hrow
+      rcases hrow with ⟨p, hp, rfl⟩ | ⟨p, hp, rfl⟩ <;>
+        (have h1 := List.of_mem_zip hp
+         have a : p.1.length = nt := by
+           by_cases c : p.1.length = nt
+           · exact c
+           · exact absurd (Or.inr (Or.inr (Or.inr (Or.inl ⟨p.1, h1.1, c⟩)))) hs
+         have b : p.2.length = nt := by
+           by_cases c : p.2.length = nt
+           · exact c
+           · exact absurd (Or.inr (Or.inr (Or.inr (Or.inr ⟨p.2, h1.2, c⟩)))) hs
+         simp only [List.length_append, List.length_map]; omega)
+    have hlen2 : (Fr ++ Fi).length = (yr ++ yi).length := by simp only [List.length_append]; omega
+    have hrow2 : ∀ row ∈ Fr ++ Fi, row.length = nt := by
+      intro row hrow
+      simp only [List.mem_append] at hrow
+      by_cases c : row.length = nt
+      · exact c
+      · rcases hrow with hrow | hrow
+        · exact absurd (Or.inr (Or.inr (Or.inr (Or.inl ⟨row, hrow, c⟩)))) hs
+        · exact absurd (Or.inr (Or.inr (Or.inr (Or.inr ⟨row, hrow, c⟩)))) hs
+    split
+    · intro hnone
+      rw [mimo_refuses_iff] at hnone
+      rcases hnone with h1 | ⟨row, hrow, h2⟩
+      · exact h1 hlen1
+      · exact h2 (hrow1 row hrow)
+    · intro hnone
+      rw [mimo_refuses_iff] at hnone
+      rcases hnone with h1 | ⟨row, hrow, h2⟩
+      · exact h1 hlen2
+      · exact h2 (hrow2 row hrow)
+
+/-- **the quadrature form encodes `‖y − F·v‖²`**: when `F†y` or `F†F` has a non-zero imaginary part, the energy at `x` is the
+    residual of the stacked real system `(yr; yi) − [[Fr, −Fi], [Fi, Fr]]·(p; q)` — the squared real parts plus the squared
+    imaginary parts of `y − F·(p + i·q)`, `p = x[0:nt]`, `q = x[nt:2nt]` -/
+theorem mimo_qpsk_energy (nt : Nat) (yr yi : List Rat) (Fr Fi : List (List Rat)) (bag : List (PTerm Label))
+    (h : mimoQpsk nt yr yi Fr Fi = some bag) (hc : qpskIsComplex nt yr yi Fr Fi = true) (x : Label → Rat) :
+    evalBag x bag = residual x (2 * nt) (yr ++ yi) (stackF Fr Fi) := by
+  unfold mimoQpsk at h
+  split at h
+  · simp at h
+  · try rw [if_pos hc] at h
+    exact mimo_bpsk_energy _ _ _ bag h x
+
+/-- **known finding D65, stated**: when `F†y` and `F†F` happen to be real the model has only the `nt` real-part variables and its
+    energy is the residual of `(yr; yi) − [Fr; Fi]·p`: the imaginary parts `q` of the symbols do not occur -/
+theorem mimo_qpsk_real_form_drops_imaginary_parts (nt : Nat) (yr yi : List Rat) (Fr Fi : List (List Rat)) (bag : List (PTerm Label))
+    (h : mimoQpsk nt yr yi Fr Fi = some bag) (hc : qpskIsComplex nt yr yi Fr Fi = false) (x : Label → Rat) :
+    evalBag x bag = residual x nt (yr ++ yi) (Fr ++ Fi) := by
+  unfold mimoQpsk at h
+  split at h
+  · simp at h
+  · have hn : ¬ (qpskIsComplex nt yr yi Fr Fi = true) := by rw [hc]; simp
+    try rw [if_neg hn] at h
+    exact mimo_bpsk_energy _ _ _ bag h x
+
+/-- witness (real data `y = (1, 2)`, `F = [[1, −1], [1, 1]]`): the model has 2 variables, the documented encoding has 4 -/
+example : qpskIsComplex 2 [1, 2] [0, 0] [[1, -1], [1, 1]] [[0, 0], [0, 0]] = false
+    ∧ (mimoQpsk 2 [1, 2] [0, 0] [[1, -1], [1, 1]] [[0, 0], [0, 0]]).map
+        (fun bag => ((Bq.empty .spin : Bq Label).apply bag).lin.length) = some 2 := by decide +kernel
+example : qpskIsComplex 2 [1, 2] [1, 0] [[1, -1], [1, 1]] [[0, 0], [0, 0]] = true
+    ∧ (mimoQpsk 2 [1, 2] [1, 0] [[1, -1], [1, 1]] [[0, 0], [0, 0]]).map
+        (fun bag => ((Bq.empty .spin : Bq Label).apply bag).lin.length) = some 4 := by decide +kernel
+
+/-! ## quadrature amplitude modulations (16QAM, 64QAM, 256QAM as repaired: 4 amplitude bits per quadrature) -/
+
+/-- **`mimo` with `na` amplitude bits per quadrature, quadrature form: the energy is the residual of the stacked real system whose
+    channel rows are `row, 2·row, …, 2^(na−1)·row` side by side** — i.e. `‖y − F·v‖²` for the symbols
+    `v_i = Σ_a 2^a·(p_a[i] + i·q_a[i])`, variables ordered by amplitude bit, within one bit the real parts then the imaginary parts -/
+theorem mimo_qam_energy (na nt : Nat) (yr yi : List Rat) (Fr Fi : List (List Rat)) (bag : List (PTerm Label))
+    (h : mimoQam na nt yr yi Fr Fi = some bag) (hc : qpskIsComplex nt yr yi Fr Fi = true) (x : Label → Rat) :
+    evalBag x bag = residual x (na * (2 * nt)) (yr ++ yi) (ampRows na (stackF Fr Fi)) := by
+  unfold mimoQam at h
+  split at h
+  · simp at h
+  · try rw [if_pos hc] at h
+    exact mimo_bpsk_energy _ _ _ bag h x
+
+/-- the number of variables per row of the amplitude-expanded channel: `na` copies -/
+theorem ampRows_width (na : Nat) (F : List (List Rat)) (w : Nat) (hw : ∀ row ∈ F, row.length = w) :
+    ∀ row ∈ ampRows na F, row.length = na * w := by
+  intro row hrow
+  unfold ampRows at hrow
+  simp only [List.mem_map] at hrow
+  obtain ⟨r0, hr0, rfl⟩ := hrow
+  have hlen := hw r0 hr0
+  have : ∀ n : Nat, ((List.range n).flatMap (fun a => r0.map (fun c => ((2 ^ a : Nat) : Rat) * c))).length = n * w := by
+    intro n
+    induction n with
+    | zero => simp
+    | succ k ih => rw [List.range_succ, List.flatMap_append, List.length_append, ih]; simp [hlen, Nat.succ_mul]
+  exact this na
+
+example : (mimoQam 2 1 [1] [1] [[1]] [[2]]).map (fun bag => ((Bq.empty .spin : Bq Label).apply bag).lin.length) = some 4 := by decide +kernel
+example : (mimoQam 4 1 [1] [1] [[1]] [[2]]).map (fun bag => ((Bq.empty .spin : Bq Label).apply bag).lin.length) = some 8 := by decide +kernel
+
+/-! ## `anti_crossing_clique`: the ground state is unique -/
+
+/-- **"The ground state of this problem is therefore +1 for all variables"**, uniqueness: a spin state that is not `+1` on all of
+    the `num_variables` variables has an energy at least 2 above the all-(+1) state -/
+theorem anti_crossing_clique_unique_ground_state (n : Nat) (b : Bq Label) (h : acClique n = some b) (x : Label → Rat)
+    (hx : ∀ v, x v = 1 ∨ x v = -1) (k : Nat) (hk : k < n) (hkx : x (iv k) = -1) :
+    b.energy (fun _ => 1) + 2 ≤ b.energy x := by
+  have hn : ¬ (n % 2 ≠ 0 ∨ n < 6) := by
+    intro hc; unfold acClique at h; rw [if_pos hc] at h; cases h
+  have hhf : 3 ≤ n / 2 := by omega
+  have hk2 : k < 2 * (n / 2) := by omega
+  rw [anti_crossing_clique_energy n b h x (fun v => pm_sq _ (hx v)),
+      anti_crossing_clique_energy n b h (fun _ => 1) (fun _ => by grind)]
+  have hall := acCliqueAdds_bound x hx (n / 2) (List.range (n / 2))
+  have h1le := pm_le _ (hx (iv 1))
+  unfold acCliqueAdds
+  -- a clique variable at −1 gives a gap: either variable 1 itself, or its pair with variable 1
+  have clique_gap : ∀ c, c < n / 2 → x (iv c) = -1 →
+      evalBag (fun _ => (1 : Rat)) ((List.range (n / 2)).flatMap (acCliqueRow (n / 2))) - 1 + 2
+        ≤ evalBag x ((List.range (n / 2)).flatMap (acCliqueRow (n / 2))) - x (iv 1) := by
+    intro c hc hcx
+    rcases hx (iv 1) with h1 | h1
+    · -- x 1 = +1, so c ≠ 1 and the pair {1, c} is unsatisfied
+      have hc1 : c ≠ 1 := by intro e; subst e; rw [h1] at hcx; grind
+      by_cases hlt : c < 1
+      · have hc0 : c = 0 := by omega
+        subst hc0
+        have hg := acCliqueRow_pair_gap x hx (n / 2) 0 1 (by omega) (by omega) (by rw [hcx, h1]; grind)
+        have := acCliqueAdds_gap x hx (n / 2) (List.range (n / 2)) 0 (List.mem_range.mpr (by omega)) hg
+        rw [h1]; grind
+      · have hg := acCliqueRow_pair_gap x hx (n / 2) 1 c (by omega) hc (by rw [hcx, h1]; grind)
+        have := acCliqueAdds_gap x hx (n / 2) (List.range (n / 2)) 1 (List.mem_range.mpr (by omega)) hg
+        rw [h1]; grind
+    · rw [h1]; grind
+  by_cases hlow : k < n / 2
+  · have := clique_gap k hlow hkx; grind
+  · -- an attached variable: its clique partner is k − hf
+    have hpart : k - n / 2 < n / 2 := by omega
+    have hke : k - n / 2 + n / 2 = k := by omega
+    rcases hx (iv (k - n / 2)) with hp | hp
+    · have hg := acCliqueRow_pendant_gap x hx (n / 2) (k - n / 2) hp (by rw [hke]; exact hkx)
+      have := acCliqueAdds_gap x hx (n / 2) (List.range (n / 2)) (k - n / 2) (List.mem_range.mpr hpart) hg
+      grind
+    · have := clique_gap (k - n / 2) hpart hp; grind
+
+/-! ## `chimera_anticluster`: the weak couplers are exactly the intra-tile edges, for every lattice shape -/
+
+/-- **tile edges, all `m, n, t`**: `_iter_chimera_tile_edges(m, n, t)` yields `(k0, k1)` iff both ends lie in one tile
+    (`row < m`, `col < n`, tile offset `2t·col + n·2t·row`), `k0` in its first shore (`+ a`, `a < t`) and `k1` in its second shore
+    (`+ t + b`, `b < t`): every pair of the two shores of every tile, and nothing else -/
+theorem chimera_tile_edges_iff (m n t : Nat) (ht : 0 < t) (hn : 0 < n) (e : Nat × Nat) :
+    e ∈ chimeraTileEdges m n t ↔
+      ∃ col row a b, col < n ∧ row < m ∧ a < t ∧ b < t
+        ∧ e = (2 * t * col + n * (2 * t) * row + a, 2 * t * col + n * (2 * t) * row + t + b) := by
+  unfold chimeraTileEdges
+  have hh : 0 < 2 * t := by omega
+  have hv : 0 < n * (2 * t) := Nat.mul_pos hn hh
+  simp only [List.mem_flatMap, List.mem_map, mem_rangeStep _ _ _ _ hh, mem_rangeStep _ _ _ _ hv, mem_rangeStep _ _ 1 _ (by omega)]
+  constructor
+  · rintro ⟨i, ⟨col, rfl, hcol⟩, j, ⟨row, rfl, hrow⟩, k0, ⟨a, rfl, ha⟩, k1, ⟨b, rfl, hb⟩, rfl⟩
+    have hcol' : col < n := (mul_lt_iff (2 * t) col n hh).mp (by simpa using hcol)
+    have hi : 0 + 2 * t * col < n * (2 * t) := hcol
+    have hrow' : row < m := (offset_lt_iff _ _ row m hi).mp hrow
+    refine ⟨col, row, a, b, hcol', hrow', by omega, by omega, ?_⟩
+    simp only [Nat.zero_add, Nat.one_mul]
+  · rintro ⟨col, row, a, b, hcol, hrow, ha, hb, rfl⟩
+    have hi : 0 + 2 * t * col < n * (2 * t) := by
+      have := (mul_lt_iff (2 * t) col n hh).mpr hcol; omega
+    refine ⟨0 + 2 * t * col, ⟨col, rfl, hi⟩, 0 + 2 * t * col + n * (2 * t) * row, ⟨row, rfl, (offset_lt_iff _ _ row m hi).mpr hrow⟩,
+      0 + 2 * t * col + n * (2 * t) * row + 1 * a, ⟨a, rfl, by omega⟩,
+      0 + 2 * t * col + n * (2 * t) * row + t + 1 * b, ⟨b, rfl, by omega⟩, ?_⟩
+    simp only [Nat.zero_add, Nat.one_mul]
+
+/-- **inter-tile edges, all `m, n, t`**: `_iter_chimera_intertile_edges(m, n, t)` yields exactly: for every second-shore position
+    `t + a` (`a < t`), every column `col` with a right neighbour (`col + 1 < n`) and every row, the horizontal edge to the same position
+    one tile to the right (`+ 2t`); and for every first-shore position `a < t`, every column and every row with a lower neighbour
+    (`row + 1 < m`), the vertical edge to the same position one tile down (`+ n·2t`) -/
+theorem chimera_intertile_edges_iff (m n t : Nat) (ht : 0 < t) (hn : 0 < n) (e : Nat × Nat) :
+    e ∈ chimeraInterEdges m n t ↔
+      ((∃ a col row, a < t ∧ col + 1 < n ∧ row < m
+          ∧ e = (t + a + 2 * t * col + n * (2 * t) * row, t + a + 2 * t * col + n * (2 * t) * row + 2 * t))
+       ∨ (∃ a col row, a < t ∧ col < n ∧ row + 1 < m
+          ∧ e = (a + 2 * t * col + n * (2 * t) * row, a + 2 * t * col + n * (2 * t) * row + n * (2 * t)))) := by
+  unfold chimeraInterEdges
+  have hh : 0 < 2 * t := by omega
+  have hv : 0 < n * (2 * t) := Nat.mul_pos hn hh
+  simp only [List.mem_append, List.mem_flatMap, List.mem_map, mem_rangeStep _ _ _ _ hh, mem_rangeStep _ _ _ _ hv, mem_rangeStep _ _ 1 _ (by omega)]
+  constructor
+  · rintro (⟨i, ⟨a, rfl, ha⟩, j, ⟨col, rfl, hcol⟩, k, ⟨row, rfl, hrow⟩, rfl⟩ | ⟨i, ⟨a, rfl, ha⟩, j, ⟨col, rfl, hcol⟩, k, ⟨row, rfl, hrow⟩, rfl⟩)
+    · left
+      have hi : t + 1 * a < 2 * t := by omega
+      have hcol' : col + 1 < n := (offset_lt_sub_iff _ _ col n hi).mp hcol
+      have hj : t + 1 * a + 2 * t * col < n * (2 * t) := by omega
+      have hrow' : row < m := (offset_lt_iff _ _ row m hj).mp hrow
+      exact ⟨a, col, row, by omega, hcol', hrow', by simp only [Nat.one_mul]⟩
+    · right
+      have hi : 0 + 1 * a < 2 * t := by omega
+      have hcol' : col < n := (offset_lt_iff _ _ col n hi).mp hcol
+      have hj : 0 + 1 * a + 2 * t * col < n * (2 * t) := hcol
+      have hrow' : row + 1 < m := (offset_lt_sub_iff _ _ row m hj).mp hrow
+      exact ⟨a, col, row, by omega, hcol', hrow', by simp only [Nat.zero_add, Nat.one_mul]⟩
+  · rintro (⟨a, col, row, ha, hcol, hrow, rfl⟩ | ⟨a, col, row, ha, hcol, hrow, rfl⟩)
+    · left
+      have hi : t + 1 * a < 2 * t := by omega
+      have hc := (offset_lt_sub_iff _ _ col n hi).mpr hcol
+      have hj : t + 1 * a + 2 * t * col < n * (2 * t) := by omega
+      exact ⟨t + 1 * a, ⟨a, rfl, by omega⟩, t + 1 * a + 2 * t * col, ⟨col, rfl, hc⟩, t + 1 * a + 2 * t * col + n * (2 * t) * row,
+        ⟨row, rfl, (offset_lt_iff _ _ row m hj).mpr hrow⟩, by simp only [Nat.one_mul]⟩
+    · right
+      have hi : 0 + 1 * a < 2 * t := by omega
+      have hc := (offset_lt_iff _ _ col n hi).mpr hcol
+      exact ⟨0 + 1 * a, ⟨a, rfl, by omega⟩, 0 + 1 * a + 2 * t * col, ⟨col, rfl, hc⟩, 0 + 1 * a + 2 * t * col + n * (2 * t) * row,
+        ⟨row, rfl, (offset_lt_sub_iff _ _ row m hc).mpr hrow⟩, by simp only [Nat.zero_add, Nat.one_mul]⟩
 
 end C17
